@@ -19,12 +19,12 @@ import (
 type M = map[string]any
 
 type env struct {
-	req  []byte            // the datagram the library just transmitted
-	vars map[string][]byte // named captures
-	defs M                 // shared sub-terms (header "defs")
-	memo map[string][]byte // memoised defs flagged as stable
-	stab map[string]bool   // names of defs that may be memoised once their captures exist
-	state map[string]int   // scripted-BMC counters (rule effects), readable as 16-bit little-endian terms
+	req   []byte            // the datagram the library just transmitted
+	vars  map[string][]byte // named captures
+	defs  M                 // shared sub-terms (header "defs")
+	memo  map[string][]byte // memoised defs flagged as stable
+	stab  map[string]bool   // names of defs that may be memoised once their captures exist
+	state map[string]int    // scripted-BMC counters (rule effects), readable as 16-bit little-endian terms
 }
 
 func newEnv(defs M, stable []any) *env {
